@@ -442,5 +442,101 @@ class ExpandTilde(Contract):
 class ExpandTildeBytes(ExpandTilde):
     is_bytes = True
 
+
+# ------------------------------------------------------------------------------------------------- matcher objects: hash / len / WcMatcher.__init__
+class RegexpHash(Contract):
+    """WcRegexp.__hash__ / WcMatcher.__hash__: the value computed once by __init__ (whose contract pins WHAT is hashed), never recomputed from mutable state."""
+    module, qual, props = '_wcmatch', 'WcRegexp.__hash__', ('C19',)
+
+    def inputs(self):
+        self.h = z3.Int('self__hash')
+        return dict(params=dict(self=selfobj()), fields=dict(_hash=Int(self.h)), pre=[])
+
+    @property
+    def ensures(self):
+        me = self
+        nm = self.qual + '.returns_the_hash_stored_by___init__'
+        return [(nm, ('C19',), lambda c: z3.And(z3.BoolVal(c.ret.kind == 'int' and set(c.st.fields) == {'_hash'}), c.ret.t == me.h, c.st.fields['_hash'].t == me.h))]
+
+
+class MatcherHash(RegexpHash):
+    qual = 'WcMatcher.__hash__'
+
+
+class RegexpLen(Contract):
+    module, qual, props = '_wcmatch', 'WcRegexp.__len__', ('C19', 'C07')
+
+    def inputs(self):
+        self.ni, self.ne, self.ex_none = z3.Int('n_include'), z3.Int('n_exclude'), z3.Bool('exclude_is_None')
+        ex = V('opt', None, isnone=self.ex_none, inner=V('list', None, length=self.ne))
+        return dict(params=dict(self=selfobj()), fields=dict(_include=V('list', None, length=self.ni), _exclude=ex), pre=[self.ni >= 0, self.ne >= 0])
+
+    @property
+    def ensures(self):
+        me = self
+        return [('WcRegexp.__len__.number_of_inclusion_regexes_plus_exclusion_regexes', ('C19', 'C07'),
+                 lambda c: z3.And(z3.BoolVal(c.ret.kind == 'int'), c.ret.t == me.ni + z3.If(me.ex_none, 0, me.ne)))]
+
+
+class MatcherInit(Contract):
+    """WcMatcher.__init__: stores the matcher and a hash of (own class, class of the matcher, the matcher) - nothing handed in from outside (a pickled copy recomputes it)."""
+    module, qual, props = '_wcmatch', 'WcMatcher.__init__', ('C19',)
+
+    def inputs(self):
+        return dict(params=dict(self=selfobj(), matcher=ObjV(z3.Const('matcher', Obj))), fields={}, pre=[], ghost={'$kw': None})
+
+    @property
+    def hooks(self):
+        def h_super(eng, node, st, args):
+            st.ghost['$kw'] = ({k.arg: eng.ev(k.value, st) for k in node.keywords}, len(node.args))
+            return NONE
+        return {'super().__init__': h_super, 'type': lambda eng, node, st, args: U('fn.type', *args), 'hash': lambda eng, node, st, args: U('fn.hash', *args)}
+
+    @property
+    def ensures(self):
+        def post(c):
+            kw = c.st.ghost['$kw']
+            if kw is None or kw[1] != 0 or set(kw[0]) != {'_matcher', '_hash'}:
+                return z3.BoolVal(False)
+            m, slf = c.p['matcher'], c.p['self']
+            want = U('fn.hash', V('tuple', None, items=[U('fn.type', slf), U('fn.type', m), m]))
+            return z3.And(pyvc.eq(kw[0]['_matcher'], m), pyvc.to_obj(kw[0]['_hash']) == want.t)
+        return [('WcMatcher.__init__.stores_the_matcher_and_hash((own_class,class_of_the_matcher,matcher))_computed_here', ('C19',), post)]
+
+
+class PathlibNorm(Contract):
+    """Glob._pathlib_norm: the path with `.` segments removed by the platform's regex, and ONE trailing separator dropped unless the path is just a separator."""
+    module, qual, props = 'glob', 'Glob._pathlib_norm', ('C16', 'C13')
+    SUBBED = z3.Function('dot_segments_removed', Obj, z3.StringSort(), z3.StringSort())
+
+    def inputs(self):
+        self.p = z3.String('path')
+        return dict(params=dict(self=selfobj(), path=Str(self.p)), fields=dict(re_pathlib_norm=ObjV(z3.Const('self_re_pathlib_norm', Obj)), empty=Str(''), seps=ObjV(z3.Const('self_seps', Obj))), pre=[], ghost={'$sub': None})
+
+    @property
+    def hooks(self):
+        me = self
+
+        def h_sub(eng, node, st, args):
+            st.ghost['$sub'] = (eng.ev(node.func.value, st), args)
+            return Str(me.SUBBED(pyvc.to_obj(eng.ev(node.func.value, st)), args[1].t))
+        return {'.sub': h_sub}
+
+    @property
+    def ensures(self):
+        me = self
+
+        def post(c):
+            sub = c.st.ghost['$sub']
+            if sub is None or c.ret.kind != 'str':
+                return z3.BoolVal(False)
+            rx, args = sub
+            q = me.SUBBED(z3.Const('self_re_pathlib_norm', Obj), me.p)
+            n = z3.Length(q)
+            last_is_sep = pyvc.truthy(U('contains', ObjV(z3.Const('self_seps', Obj)), Str(z3.SubString(q, n - 1, 1))))
+            return z3.And(pyvc.to_obj(rx) == z3.Const('self_re_pathlib_norm', Obj), args[0].t == z3.StringVal(''), args[1].t == me.p,
+                          c.ret.t == z3.If(z3.And(n > 1, last_is_sep), z3.SubString(q, 0, n - 1), q))
+        return [('Glob._pathlib_norm.dot_segments_removed_and_one_trailing_separator_dropped_(never_the_only_character)', ('C16', 'C13'), post)]
+
 ALL = [Kill(), Reset(), IsAborted(), GetSkipped(), AddSep(), NormSlash(), NormSlashBytes(), GetCwd(), GetCwdBytes(), MatchInit(), MatchInitBytes(), WcSplitInit(), WcSplitSplit(),
-       WcSplitSplitBytes(), GlobSplitIsMagic(), GetMatcher(), GetMatcherNone(), GetMatcherText(), ExpandTilde(), ExpandTildeBytes()]
+       WcSplitSplitBytes(), GlobSplitIsMagic(), GetMatcher(), GetMatcherNone(), GetMatcherText(), ExpandTilde(), ExpandTildeBytes(), RegexpHash(), MatcherHash(), RegexpLen(), MatcherInit(), PathlibNorm()]
